@@ -5,6 +5,8 @@ import (
 	"fmt"
 	"go/ast"
 	"go/token"
+	"go/types"
+	"sort"
 	"strings"
 )
 
@@ -114,6 +116,11 @@ func (f *impFn) assigned(nodes ...ast.Node) []string {
 					if id, ok := se.X.(*ast.Ident); ok {
 						if t := f.lookup(id.Name); t != nil && (t.k == "elem" || (t.k == "bigint" && se.Sel.Name == "Neg")) {
 							set[id.Name] = true
+						}
+						if t := f.lookup(id.Name); t != nil && t.k == "struct" && id.Name == f.recv {
+							if m := f.p.methods[se.Sel.Name]; m != nil && m.mutates {
+								set[id.Name] = true
+							}
 						}
 					}
 				}
@@ -244,7 +251,21 @@ func (f *impFn) upd(lhs ast.Expr, val string, c *ictx) (string, string) {
 		}
 		return v.Name, val
 	case *ast.SelectorExpr:
+		bt := exprText(v.X)
+		wasFresh, wasNN := f.nonNil[freshKey+bt], f.nonNil[bt]
+		sv := f.saveFresh()
 		xs, xt := f.expr(v.X, nil, c)
+		f.restoreFresh(sv)
+		if xt.k == "lptr" {
+			// write to a field of a list node: a value update of the path only if no other pointer to the node exists
+			if !wasFresh || !wasNN {
+				f.p.die(lhs, "write through the list pointer %s, which is not known to be fresh (`%s = &T{…}` just before, not read as a value since): the node could be shared", bt, bt)
+			}
+			if v.Sel.Name == f.p.listNext[xt.elem.name] {
+				f.p.die(lhs, "assignment to the link field of a list node")
+			}
+			return f.upd(v.X, "({ nodeOf "+parenImp(xs)+" with "+v.Sel.Name+" := "+val+" } :: "+parenImp(xs)+".tail)", c)
+		}
 		if xt.k == "ptr" {
 			f.p.die(lhs, "write through the pointer %s (outside the subset: pointers are immutable values)", exprText(v.X))
 		}
@@ -353,8 +374,12 @@ func (f *impFn) simple(s ast.Stmt, prev ast.Stmt, c *ictx) []string {
 			if !ok {
 				p.die(s, ":= to a non-variable")
 			}
+			nn, _ := f.rhsNonNil(v.Rhs[0])
 			es, et := f.expr(v.Rhs[0], nil, c)
 			f.declare(s, id.Name, et)
+			if et.k == "lptr" && nn {
+				f.nonNil[id.Name] = true
+			}
 			if _, isLit := v.Rhs[0].(*ast.BasicLit); isLit || et.k == "struct" {
 				return []string{"let " + lname(id.Name) + " : " + p.lty(et, true) + " := " + es}
 			}
@@ -389,13 +414,33 @@ func (f *impFn) simple(s ast.Stmt, prev ast.Stmt, c *ictx) []string {
 				delete(f.bigFresh, id.Name)
 			}
 		}
+		sv0 := f.saveFresh()
 		lt := f.lhsType(v.Lhs[0], c)
+		f.restoreFresh(sv0) // typing the left-hand side reads nothing
+		nn, lit := f.rhsNonNil(v.Rhs[0])
 		es, et := f.expr(v.Rhs[0], lt, c)
 		if !et.eq(lt) {
 			p.die(s, "assignment of %v to %v", et, lt)
 		}
+		nodeBase := ""
+		if se, ok := v.Lhs[0].(*ast.SelectorExpr); ok {
+			sv := f.saveFresh()
+			if _, bt := f.expr(se.X, nil, c); bt.k == "lptr" {
+				nodeBase = exprText(se.X)
+			}
+			f.restoreFresh(sv)
+		}
 		root, nv := f.upd(v.Lhs[0], es, c)
 		f.killGuards(exprText(v.Lhs[0]))
+		if lt.k == "lptr" && nn {
+			f.nonNil[exprText(v.Lhs[0])] = true
+			if lit {
+				f.nonNil[freshKey+exprText(v.Lhs[0])] = true
+			}
+		}
+		if nodeBase != "" { // a field of the (fresh) node was written: the pointer itself is what it was
+			f.nonNil[nodeBase], f.nonNil[freshKey+nodeBase] = true, true
+		}
 		return []string{"let " + lname(root) + " := " + nv}
 	case *ast.IncDecStmt:
 		xs, xt := f.expr(v.X, nil, c)
@@ -464,6 +509,16 @@ func (f *impFn) simple(s ast.Stmt, prev ast.Stmt, c *ictx) []string {
 					}
 					p.die(s, "big.Int method %s as a statement", se.Sel.Name)
 				}
+			}
+		}
+		if se, ok := call.Fun.(*ast.SelectorExpr); ok && f.recv != "" && !f.evRecv && exprText(se.X) == f.recv {
+			if m := p.methods[se.Sel.Name]; m != nil {
+				if !m.mutates || len(m.results) != 0 {
+					p.die(s, "call statement of the method %s (only methods without results that modify the receiver)", se.Sel.Name)
+				}
+				txt := f.methodCall(call, se.Sel.Name, m, c)
+				f.killGuards(f.recv)
+				return []string{"let " + lname(f.recv) + " := " + txt}
 			}
 		}
 		if id, ok := call.Fun.(*ast.Ident); ok {
@@ -620,6 +675,9 @@ func (f *impFn) seq(list []ast.Stmt, k *kont, c *ictx, ind string, prev ast.Stmt
 		return f.enter(k, c, ind)
 	}
 	s, rest := list[0], list[1:]
+	if _, ok := s.(*ast.IfStmt); !ok {
+		f.seenStmt = true
+	}
 	switch v := s.(type) {
 	case *ast.ReturnStmt:
 		if f.retSelf {
@@ -643,6 +701,21 @@ func (f *impFn) seq(list []ast.Stmt, k *kont, c *ictx, ind string, prev ast.Stmt
 		}
 		var vals []string
 		for i, r := range v.Results {
+			if w := f.results[i]; w.k == "nslice" {
+				if id, ok := r.(*ast.Ident); ok && id.Name == "nil" && f.lookup("nil") == nil {
+					vals = append(vals, "none")
+					continue
+				}
+				es, et := f.expr(r, w.elem, c)
+				if et.eq(w) {
+					vals = append(vals, es)
+				} else if et.eq(w.elem) {
+					vals = append(vals, "some "+parenImp(es))
+				} else {
+					p.die(r, "return value %d: %v expected, %v given", i, w.elem, et)
+				}
+				continue
+			}
 			es, et := f.expr(r, f.results[i], c)
 			if !et.eq(f.results[i]) {
 				p.die(r, "return value %d: %v expected, %v given", i, f.results[i], et)
@@ -655,6 +728,30 @@ func (f *impFn) seq(list []ast.Stmt, k *kont, c *ictx, ind string, prev ast.Stmt
 		f.push()
 		return f.seq(v.List, &kont{list: rest, next: k, depth: d, nonNil: copySet(f.nonNil), top: top}, c, ind, nil, false)
 	case *ast.IfStmt:
+		if top && prev == nil && v.Init == nil && v.Else == nil && len(v.Body.List) == 1 && f.ncont == 0 && f.nloop == 0 && !f.seenStmt {
+			if es, ok := v.Body.List[0].(*ast.ExprStmt); ok {
+				if call, ok := es.X.(*ast.CallExpr); ok && exprText(call.Fun) == "panic" && len(call.Args) == 1 && f.lookup("panic") == nil {
+					// `if cond { panic(…) }` as the FIRST statement: the def describes the calls that do not panic here; the condition
+					// (a function of the arguments) is emitted as `<fn>.panics`
+					if _, ok := call.Args[0].(*ast.BasicLit); !ok {
+						p.die(s, "panic argument (only a literal)")
+					}
+					u := &iuses{}
+					cs, ct := f.expr(v.Cond, tyBool, &ictx{uses: u})
+					if ct.k != "bool" || u.W || u.H || u.S || u.B {
+						p.die(s, "panic condition")
+					}
+					var params []string
+					for _, x := range f.freeVars(v.Cond) {
+						params = append(params, "("+lname(x)+" : "+p.lty(f.lookup(x), false)+")")
+					}
+					f.helpers = append(f.helpers, fmt.Sprintf("/-- %s, line %d: the call panics (%s) exactly when this holds; the def below describes the other calls -/\ndef %s.panics %s : Bool :=\n  %s\n",
+						f.name, f.lineNo(s), strings.ReplaceAll(exprText(call.Args[0]), "-/", "- /"), f.name, strings.Join(params, " "), cs))
+					return ind + fmt.Sprintf("-- line %d: if %s { panic } — see %s.panics", f.lineNo(s), types.ExprString(v.Cond), f.name) + "\n" + f.seq(rest, k, c, ind, nil, top)
+				}
+			}
+		}
+		f.seenStmt = true
 		return f.ifStmt(v, rest, k, c, ind, top)
 	case *ast.RangeStmt:
 		return f.rangeStmt(v, rest, k, c, ind, top)
@@ -764,7 +861,7 @@ func (f *impFn) ifStmt(v *ast.IfStmt, rest []ast.Stmt, k *kont, c *ictx, ind str
 	}
 	kg := map[string]bool{}
 	for g := range f.nonNil {
-		if !touched[rootName(g)] {
+		if !touched[rootName(g)] && !strings.HasPrefix(g, freshKey) {
 			kg[g] = true
 		}
 	}
@@ -828,9 +925,19 @@ func (f *impFn) ifStmt(v *ast.IfStmt, rest []ast.Stmt, k *kont, c *ictx, ind str
 			p.die(v, "if statement without effect on live variables")
 		}
 		mt := impTuple(lnames(M))
-		cc := &ictx{ret: func(string) string { p.die(v, "internal: return in a value-joined if"); return "" }, fall: func() string { return mt }, inLoop: c.inLoop, uses: c.uses}
+		var ends []map[string]bool // guards (and fresh marks) that hold where a branch ends
+		cc := &ictx{ret: func(string) string { p.die(v, "internal: return in a value-joined if"); return "" }, fall: func() string { ends = append(ends, copySet(f.nonNil)); return mt }, inLoop: c.inLoop, uses: c.uses}
 		th := branch(v.Body.List, posG, nil, cc, ind+"    ")
 		el := branch(elseList, nil, nil, cc, ind+"    ")
+		if len(ends) == 2 { // what holds at the end of both branches holds afterwards (variables of the enclosing scopes only)
+			f.restore(ss, sg)
+			f.popTo(depth0)
+			for g := range ends[0] {
+				if ends[1][g] && f.lookup(rootName(strings.TrimPrefix(g, freshKey))) != nil {
+					K.nonNil[g] = true
+				}
+			}
+		}
 		out := head + ind + "let " + mt + " :=\n" + ind + "  if " + cond + " then\n" + th + "\n" + ind + "  else\n" + el + "\n"
 		f.restore(ss, sg)
 		return out + f.enter(K, c, ind)
@@ -902,7 +1009,7 @@ func (f *impFn) mkCont(K *kont, c *ictx) *kont {
 
 func (f *impFn) retTy() string {
 	var ts []string
-	if f.recv != "" {
+	if f.recv != "" && !f.recvRO {
 		ts = append(ts, f.p.ltyA(f.recvTy, false))
 	}
 	var rs []string
@@ -1173,15 +1280,25 @@ func (f *impFn) forStmt(v *ast.ForStmt, rest []ast.Stmt, k *kont, c *ictx, ind s
 	cc := &ictx{inLoop: true, uses: u, loopDepth: len(f.scopes),
 		ret: func(vals string) string { return "(" + st + ", some " + parenImp(vals) + ")" },
 		brk: func() string { return exit }}
+	f.dropFresh("")
+	inv := f.invariantGuards(nodes...)
 	ss, sg := f.snap()
 	f.loopGuards(S)
+	for _, g := range inv {
+		f.nonNil[g] = true
+	}
 	cond := "true"
+	var condG []string
 	if v.Cond != nil {
 		cs, ct := f.expr(v.Cond, tyBool, cc)
 		if ct.k != "bool" {
 			p.die(v, "loop condition type")
 		}
 		cond = cs
+		nilTests(v.Cond, token.LAND, token.NEQ, &condG)
+	}
+	for _, g := range condG { // the body runs under the loop condition
+		f.nonNil[g] = true
 	}
 	cc.fall = func() string {
 		post := ""
@@ -1235,6 +1352,9 @@ func (f *impFn) forStmt(v *ast.ForStmt, rest []ast.Stmt, k *kont, c *ictx, ind s
 	for _, s := range S {
 		f.killGuards(s)
 	}
+	for _, g := range inv {
+		f.nonNil[g] = true
+	}
 	head := ""
 	if len(pre) > 0 {
 		head = indent(pre, ind) + "\n"
@@ -1261,6 +1381,84 @@ func (f *impFn) assignedAnywhere(n ast.Node) []string {
 		}
 		return true
 	})
+	return out
+}
+
+// guards that hold now and that every statement of the loop keeps: each assignment that overlaps the guarded path assigns exactly
+// that path a syntactically non-nil pointer (`&T{…}` or the result of a function all of whose returns are `&T{…}`); a method call
+// on the root variable, a tuple assignment or copy() into it breaks the guard
+func (f *impFn) invariantGuards(nodes ...ast.Node) []string {
+	var out []string
+	for g := range f.nonNil {
+		if strings.HasPrefix(g, freshKey) {
+			continue
+		}
+		ok := true
+		root := g
+		if i := strings.IndexAny(g, ".["); i >= 0 {
+			root = g[:i]
+		}
+		for _, n := range nodes {
+			ast.Inspect(n, func(m ast.Node) bool {
+				switch s := m.(type) {
+				case *ast.AssignStmt:
+					for i, l := range s.Lhs {
+						lt := exprText(l)
+						if !(pathPrefix(lt, g) || pathPrefix(g, lt)) {
+							continue
+						}
+						if lt != g { // a shorter path (the whole struct) or a field below the guarded pointer
+							if pathPrefix(lt, g) {
+								ok = false
+							}
+							continue
+						}
+						if len(s.Lhs) != len(s.Rhs) {
+							ok = false
+							continue
+						}
+						u, isAddr := s.Rhs[i].(*ast.UnaryExpr)
+						_, isLit := (func() (ast.Expr, bool) {
+							if isAddr && u.Op == token.AND {
+								cl, ok := u.X.(*ast.CompositeLit)
+								return cl, ok
+							}
+							return nil, false
+						})()
+						isRes := false
+						if c, isCall := s.Rhs[i].(*ast.CallExpr); isCall {
+							if id, isId := c.Fun.(*ast.Ident); isId && f.lookup(id.Name) == nil && f.p.translated[id.Name] != nil && f.p.translated[id.Name].nonNilRe {
+								isRes = true
+							}
+						}
+						if !isLit && !isRes {
+							ok = false
+						}
+					}
+				case *ast.IncDecStmt:
+					if pathPrefix(exprText(s.X), g) {
+						ok = false
+					}
+				case *ast.RangeStmt:
+					if (s.Key != nil && exprText(s.Key) == root) || (s.Value != nil && exprText(s.Value) == root) {
+						ok = false
+					}
+				case *ast.CallExpr:
+					if exprText(s.Fun) == "copy" && len(s.Args) > 0 && pathPrefix(exprText(s.Args[0]), g) {
+						ok = false
+					}
+					if se, isSel := s.Fun.(*ast.SelectorExpr); isSel && (pathPrefix(exprText(se.X), g) || pathPrefix(g, exprText(se.X))) {
+						ok = false // a method call on the path (Write / Reset / a method of the receiver)
+					}
+				}
+				return true
+			})
+		}
+		if ok {
+			out = append(out, g)
+		}
+	}
+	sort.Strings(out)
 	return out
 }
 
